@@ -115,9 +115,9 @@ PROPS = {
         theorems=[P + "C03." + t for t in ("no_lost_wakeup", "release_serves_head", "arrivals_at_tail", "cancelled_never_served", "cancel_keeps_invariant",
                                           "waiter_implies_full_seq", "wait_deadline", "wait_timeout_zero_is_none", "fifo_no_overtaking", "fifo_queue_order",
                                           "wait_not_early", "wait_not_early_pending", "wait_not_early_reachable", "wait_prompt", "wait_only_shrinks", "gave_up_never_granted",
-                                          "abandoned_never_granted", "cancel_makes_gone", "disconnect_answers_waiters")]
+                                          "abandoned_never_granted", "answered_at_most_once", "cancel_makes_gone", "disconnect_answers_waiters")]
                  + ["Ldlm.Table.run_inv", "Ldlm.Table.no_overtaking", "Ldlm.Table.queue_order", "Ldlm.Core.run_pu",
-                    "Ldlm.Core.advanceTo_wait_not_early", "Ldlm.Core.advanceTo_wait_prompt", "Ldlm.Core.run_pq", "Ldlm.Core.step_evok", "Ldlm.Core.step_gone"],
+                    "Ldlm.Core.advanceTo_wait_not_early", "Ldlm.Core.advanceTo_wait_prompt", "Ldlm.Core.run_pq", "Ldlm.Core.step_evok", "Ldlm.Core.step_gone", "Ldlm.Core.step_evgone", "Ldlm.Core.step_answered_gone", "Ldlm.Core.step_nreq_mono"],
         streams=[CONC, SEQ],
         level_text="For every schedule of any number of threads (M1): a non-empty queue means every unit is taken (no lost wake-up), a release hands the unit to the head of the queue and arrivals join at the tail (FIFO), a waiter that gave up is out of the queue and cannot be served later, and giving up preserves the invariant (does not delay the others). Timed part over M2: the wait deadline is exactly now + w*10^9 iff w > 0, 0/absent = none; the sequential no-lost-wake-up holds in every reachable state. Tied to the code by conc templates (release x waiter arrival x wait time-out x cancel, 1-2 waiters, coinciding instants) and seqdiff with exact virtual return times and a FIFO / early- / late-time-out monitor.",
         level_note="PARTIAL: 'promptly' is exact only in virtual time; real-time promptness and fair scheduling are the Go runtime's (trusted). Shutdown: the manager alone dead-locks with an un-cancellable blocked waiter (observation in DESIGN §2); through cmd/server the network layer cancels waiters first (C11). A theorem that a pending call completes at exactly its deadline under `advance` (wait_timeout_exact) is not yet proved; it is checked by the seq monitor.",
